@@ -490,6 +490,41 @@ func (r *runner) exec(line string) (cont bool) {
 			n++
 		}
 		r.res("ok %d %s", n, first)
+	case "backup", "backupfile":
+		// hot backup through a read transaction; with "backup" further write transactions are committed on the same DB
+		// between the chunks the copy writes (deterministic concurrent writers at every point of the copy)
+		tx := r.tx(f[1])
+		if tx == nil {
+			r.res("notx")
+			return true
+		}
+		dst := fmt.Sprintf("%s/c%d.bak%d", r.dir, r.caseID, r.imgN)
+		r.imgN++
+		os.Remove(dst)
+		var n int64
+		var err error
+		size := tx.Size()
+		if f[0] == "backupfile" {
+			err = tx.CopyFile(dst, 0600)
+			if st, e := os.Stat(dst); e == nil {
+				n = st.Size()
+			}
+		} else {
+			k, _ := strconv.Atoi(f[2])
+			out, _ := os.Create(dst)
+			iw := &interleaveWriter{r: r, left: k, out: out}
+			n, err = tx.WriteTo(iw)
+			out.Close()
+		}
+		fmt.Fprintf(r.w, "o backupdone %s\n", f[1])
+		if err != nil {
+			r.res("%s", errName(err))
+			return true
+		}
+		// what the copy holds, seen through a fresh Open of it
+		d, chk := dumpFile(dst)
+		ps := r.ps
+		r.res("ok n=%d size=%d dump=%s check=%d img=%s ps=%d", n, size, d, chk, dst, ps)
 	case "bstats":
 		tx := r.tx(f[1])
 		if tx == nil {
@@ -575,6 +610,26 @@ func (r *runner) info(what string) {
 		line += " flloaded=0"
 	}
 	fmt.Fprintln(r.w, line)
+}
+
+type interleaveWriter struct {
+	r    *runner
+	left int
+	out  *os.File
+	seq  int
+}
+
+func (iw *interleaveWriter) Write(p []byte) (int, error) {
+	n, err := iw.out.Write(p)
+	if iw.left > 0 && iw.r.wtx == nil {
+		iw.left--
+		iw.seq++
+		for _, l := range []string{"beginw", "x w createif - 6b62", fmt.Sprintf("x w put 6b62 %x @%d:%d", fmt.Sprintf("i%04d", iw.seq), 50+iw.seq*37%3000, iw.seq),
+			fmt.Sprintf("x w del 6b62 %x", fmt.Sprintf("i%04d", iw.seq-1)), "dump w", "commit"} {
+			iw.r.exec(l)
+		}
+	}
+	return n, err
 }
 
 func firstBucket(tx *bolt.Tx) *bolt.Bucket {
@@ -891,6 +946,7 @@ type genCfg struct {
 	reopen    bool
 	malformed bool
 	moves     bool
+	backups   bool
 }
 
 // genHistory: model-guided generator. Existing buckets/keys are re-used with high probability; sizes approach
@@ -1119,6 +1175,19 @@ func genHistory(r *rng, cfg genCfg, o openOpts) []string {
 		} else {
 			L = append(L, "dump w", "commit")
 			committed = work
+		}
+		if cfg.backups && len(readers) > 0 && r.chance(1, 2) {
+			ids := make([]int, 0, len(readers))
+			for id := range readers {
+				ids = append(ids, id)
+			}
+			sort.Ints(ids)
+			id := ids[r.intn(len(ids))]
+			if r.chance(1, 4) {
+				L = append(L, fmt.Sprintf("backupfile r%d", id))
+			} else {
+				L = append(L, fmt.Sprintf("backup r%d %d", id, []int{0, 1, 2, 5}[r.intn(4)]))
+			}
 		}
 		// every open reader is re-dumped after every writer event (C02)
 		if cfg.readers {
